@@ -121,6 +121,22 @@ def build_corpus(quick):
     add('long-string', 'lorem ipsum dolor sit amet ' * 6, {'width': 40})
     add('long-bytes-nested', {'k': b'abc def ' * 12}, {'width': 30})
     add('maxseqlen', list(range(20)), {'max_seq_len': 5})
+    # the same content through different printers / split patterns / settings (shared memo keys would collide)
+    for j, text in enumerate(['usr/local lib/python 3/site packages/some where/deep down/in the/tree of/dirs and/files.txt',
+                              'it\'s a "quoted" path/with blanks and/slashes that is/long enough to/be split over/several lines/of output.txt']):
+        add('same-text-str-%d' % j, text)
+        add('same-text-posixpath-%d' % j, pathlib.PurePosixPath(text))
+        add('same-text-windowspath-%d' % j, pathlib.PureWindowsPath(text))
+        add('same-text-bytes-%d' % j, text.encode())
+        add('same-text-nested-%d' % j, {'k': [text]}, {'width': 50})
+        add('same-text-narrow-%d' % j, text, {'width': 30})
+        add('same-text-strsub-%d' % j, c08.FAMILY[str][0](text))
+    add('same-items-list', [1, 2, 3, 'x'])
+    add('same-items-tuple', (1, 2, 3, 'x'))
+    add('same-items-set', {1, 2, 3, 'x'})
+    add('same-items-deque', collections.deque([1, 2, 3, 'x']))
+    add('same-number-int-float', [1, 1.0, True, 0, 0.0, -0.0, False])
+    add('same-number-float-first', [-0.0, 0.0, 0, False])
     add('holder', c17.gen_holder(V.rng_for('c19h'))[0])
     insts = list(c07.gen_instances(V.rng_for('c19i'), True))
     for i, (tname, inst) in enumerate(insts[::17 if quick else 3]):
